@@ -6,7 +6,7 @@ from ..scenarios_r import base_family
 WIT = ["round_with_fills", "multi_fill_round", "round_with_4_fills", "self_trade", "fill_at_price_zero", "observation_points"]
 RULE = ("deviation-bounded enumeration of all executions of the real SequentialRunner around each base scenario (every "
         "permutation handed out by sample(), every rate draw, every menu choice of every scripted agent); at every observation point (each consultation, callback, step record, and the end of the run) every agent's cash and share positions are compared with its endowment folded in order with the ground-truth fills so far, and totals are checked for conservation; "
-        "distinct = distinct outcome digests")
+        "distinct = distinct outcome digests; plus the simulator's settlement call driven directly with every registration order of agent ids (also non-contiguous ids) x market ids x all buyer/seller/market combinations incl. self-trades and price 0")
 
 
 def scenarios(tier):
@@ -17,14 +17,92 @@ def on_exc(w):
     return ("C05.run_aborted", "the run aborted with %s: %s" % (type(w.exc).__name__, str(w.exc)[:80]))
 
 
+# ------------------------------------------------------------------------------------------------
+# the simulator's settlement driven directly (agent / market ids that are not 0..n-1 in registration order)
+
+
+def direct_cases():
+    import itertools
+    for agent_ids in list(itertools.permutations((0, 1, 2))) + [(5, 9, 7), (2, 0, 7)]:
+        for market_ids in ((0, 1), (3, 1)):
+            for batch in ("one_call", "call_per_fill"):
+                yield (agent_ids, market_ids, batch)
+
+
+def direct_fn(case, wit):
+    import random
+    from ..common import Violation
+    from pams.agents import Agent
+    from pams.logs import ExecutionLog
+    from pams.market import Market
+    from pams.simulator import Simulator
+    agent_ids, market_ids, batch = case
+
+    class A(Agent):
+        def submit_orders(self, markets):
+            return []
+    sim = Simulator(prng=random.Random(0))
+    for mid in market_ids:
+        m = Market(mid, random.Random(mid), sim, "m%d" % mid)
+        m.setup({"tickSize": 1.0, "marketPrice": 100.0})
+        sim._add_market(m)
+    exp = {}
+    for k, aid in enumerate(agent_ids):
+        a = A(aid, random.Random(aid), sim, "a%d" % aid)
+        a.setup({"cashAmount": 1000 * (k + 1), "assetVolume": 10 * (k + 1)}, list(market_ids))
+        sim._add_agent(a)
+        exp[aid] = [float(1000 * (k + 1)), {mid: 10 * (k + 1) for mid in market_ids}]
+    fills = []
+    n = 0
+    for b in agent_ids:
+        for s_ in agent_ids:
+            for mid in market_ids:
+                n += 1
+                price, vol = (0.0 if n % 5 == 0 else 100.5 + n), 1 + n % 3
+                fills.append(ExecutionLog(market_id=mid, time=0, buy_agent_id=b, sell_agent_id=s_, buy_order_id=2 * n, sell_order_id=2 * n + 1,
+                                          price=price, volume=vol))
+                exp[b][0] -= price * vol
+                exp[s_][0] += price * vol
+                exp[b][1][mid] += vol
+                exp[s_][1][mid] -= vol
+    if batch == "one_call":
+        sim._update_agents_for_execution(execution_logs=fills)
+    else:
+        for l in fills:
+            sim._update_agents_for_execution(execution_logs=[l])
+    for a in sim.agents:
+        want = exp[a.agent_id]
+        got = (a.get_cash_amount(), {mid: a.get_asset_volume(mid) for mid in market_ids})
+        if abs(got[0] - want[0]) > 1e-9 * max(1.0, abs(want[0])) or got[1] != want[1]:
+            raise Violation("C05.direct_settlement", "after the simulator settled a list of fills an agent's holdings differ from its endowment folded with its own fills",
+                            "agents registered with ids %s, markets %s: agent %s has %r expected %r" % (agent_ids, market_ids, a.agent_id, got, (want[0], want[1])))
+    wit.inc("direct_settlement_cases")
+    return (agent_ids == tuple(sorted(agent_ids)), market_ids, batch)
+
+
 def run(tier, seed):
     from ..families import cross_family
     res = run_r("C05", tier, seed, scenarios(tier), [acc_C05], 2 if tier == "quick" else 3, on_exc, WIT, RULE)
     run_r("C05", tier, seed, cross_family(tier, observer=make_holdings_observer()), [acc_C05], 1 if tier == "quick" else 2, on_exc, [], RULE, res=res, label="cross_family", split=0)
+    from ..enum_f import run_grid
+    ev0, dn0 = res.coverage["evaluations"], res.coverage["distinct_nontrivial"]
+    run_grid(res, "direct_settlement", list(direct_cases()), direct_fn, seed)
+    res.require_witness(["direct_settlement_cases"])
     return res
 
 
 def replay(payload):
+    if payload.get("engine") == "F":
+        from ..common import Violation, Counter
+        c = payload["case"]
+        try:
+            direct_fn((tuple(c[0]), tuple(c[1]), c[2]), Counter())
+        except Violation as v:
+            print("  ==> VIOLATION %s: %s" % (v.monitor, v.msg))
+            print("VIOLATION property=C05 replay=(this file)")
+            return 1
+        print("replay: no violation on this tree")
+        return 0
     from ..families import cross_family
     sc = scenarios("thorough")
     sc.update(cross_family("thorough", observer=make_holdings_observer()))
